@@ -44,8 +44,8 @@ func init() {
 		Components: map[string]string{
 			"client package (core, hooks, request, response, cookiejar), addon/retry": "real (instrumented)",
 			"fasthttp.Client/HostClient dispatch, request/response codecs":            "real (not instrumented)",
-			"network":                                    "stub RoundTripper with seeded delay / error",
-			"server":                                     "real fiber app reached through harness.Conn",
+			"network": "stub RoundTripper with seeded delay / error",
+			"server":  "real fiber app reached through harness.Conn",
 			"sync.Mutex / sync.Pool / goroutines / atomics / channel ops": "simulated by simrt",
 		},
 	})
@@ -115,24 +115,24 @@ func clientMain(s *simrt.Sim, info *harness.RunInfo) {
 // ---- (a) hand-off ---------------------------------------------------------------------
 
 type hoOp struct {
-	id        int
-	token     string
-	timeout   time.Duration // request level (0 = none)
-	cancelAt  time.Duration // harness cancels the context after this long (0 = never)
-	redirect  bool
-	plan      *tplan
-	start     time.Time
-	err       error
-	status    int
-	body      string
-	echo      string
-	done      bool
-	elapsed   time.Duration
-	cliTO     time.Duration
-	retries   int
-	mustFail  bool
-	mayFail   bool
-	mustOK    bool
+	id       int
+	token    string
+	timeout  time.Duration // request level (0 = none)
+	cancelAt time.Duration // harness cancels the context after this long (0 = never)
+	redirect bool
+	plan     *tplan
+	start    time.Time
+	err      error
+	status   int
+	body     string
+	echo     string
+	done     bool
+	elapsed  time.Duration
+	cliTO    time.Duration
+	retries  int
+	mustFail bool
+	mayFail  bool
+	mustOK   bool
 }
 
 func clientHandoff(s *simrt.Sim, info *harness.RunInfo) {
@@ -678,7 +678,7 @@ func clientJar(s *simrt.Sim, info *harness.RunInfo) {
 func clientFidelity(s *simrt.Sim, info *harness.RunInfo) {
 	type seen struct {
 		method, path, query, ua, referer, cookie, body, ctype string
-		headers                                              map[string][]string
+		headers                                               map[string][]string
 	}
 	var last seen
 	app := fiber.New()
